@@ -213,6 +213,18 @@ def fl(I, st, x, r):
     return sdiv(I, st, x * r, E)
 
 
+def spec_new_rate(I, st, amount, rate, total, slashed):
+    """closed form of calculate_new_withdraw_rate (proved equal to its MIR by obligation kernel_new_withdraw_rate);
+    slashed is signed: > 0 a loss, < 0 a surplus"""
+    unb = sdiv(I, st, amount * rate, E)
+    w = sdiv(I, st, unb * E, total)
+    mag = z3.If(slashed >= 0, slashed, -slashed)
+    share = sdiv(I, st, w * mag, E)
+    pos_share = share + z3.If(mag != 0, 1, 0)
+    actual = z3.If(slashed < 0, unb + z3.If(share > 1, share - 1, 0), z3.If(unb >= pos_share, unb - pos_share, 0))
+    return z3.If(amount != 0, sdiv(I, st, actual * E, amount), rate)
+
+
 def edge_free(W, I, st, arrived, expected_b, expected_s, k):
     tot = expected_b + expected_s
     s_ratio = sdiv(I, st, expected_s * E, tot)
@@ -261,6 +273,17 @@ def ob_release(k, released_before, cap=None, light=False, real_kernel=False, pen
                         e = cand
                 hv = e.val
                 rb2, rs2 = hv.fields[4].fields[0], hv.fields[7].fields[0]
+                if not is_ok(res) and hv.fields[8] is False and not light:
+                    # the call failed before this matured batch was released: what the claimant is owed is the share at the
+                    # rate the release *would* fix (closed form of the rate kernel on the spec's split of the arrived coins)
+                    arrived_ = W.hub_balance - W.prev_hub_balance
+                    eb_ = sum(fl(I, st, g['bsei'], g['bsei_wr']) for g in W.hs)
+                    es_ = sum(fl(I, st, g['stsei'], g['stsei_wr']) for g in W.hs)
+                    tot_ = es_ + eb_
+                    sr_ = sdiv(I, st, es_ * E, tot_)
+                    ba_ = sdiv(I, st, arrived_ * z3.If(tot_ > 0, E - sr_, 0), E)
+                    rb2 = spec_new_rate(I, st, h['bsei'], h['bsei_wr'], eb_, eb_ - ba_)
+                    rs2 = spec_new_rate(I, st, h['stsei'], h['stsei_wr'], es_, es_ - (arrived_ - ba_))
                 h['rb2'], h['rs2'], h['rel2'] = rb2, rs2, hv.fields[8]
                 new_b = new_b + fl(I, st, h['bsei'], rb2)
                 new_s = new_s + fl(I, st, h['stsei'], rs2)
